@@ -181,6 +181,7 @@ type ValueGen struct {
 	Depth int
 	// SafeStrings restricts strings to a pool without control bytes (for header-bound use).
 	NoFloatSpecials bool
+	NoUnknownEnum   bool
 }
 
 func (g *ValueGen) scalar(fd protoreflect.FieldDescriptor) protoreflect.Value {
@@ -194,7 +195,7 @@ func (g *ValueGen) scalar(fd protoreflect.FieldDescriptor) protoreflect.Value {
 		return protoreflect.ValueOfBytes(bytesPool[r.Intn(len(bytesPool))])
 	case protoreflect.EnumKind:
 		vals := fd.Enum().Values()
-		if r.Intn(8) == 0 {
+		if !g.NoUnknownEnum && r.Intn(8) == 0 {
 			return protoreflect.ValueOfEnum(protoreflect.EnumNumber(99)) // undefined number
 		}
 		return protoreflect.ValueOfEnum(vals.Get(r.Intn(vals.Len())).Number())
